@@ -4,6 +4,7 @@ import (
 	"fmt"
 	"reflect"
 	"sort"
+	"strconv"
 	"strings"
 
 	nject "github.com/muir/nject/v2"
@@ -329,6 +330,12 @@ func (r *caseRun) buildCollection(name string) *nject.Collection {
 	k := 0
 	if len(items) > 0 {
 		k = int((uint64(r.c.Seed) / 6) % uint64(len(items)+1))
+	}
+	if strings.HasPrefix(r.c.Shape, "unnamed:") {
+		// asked for by the case: the first k providers sit in an unnamed sub-sequence
+		if kk, err := strconv.Atoi(strings.TrimPrefix(r.c.Shape, "unnamed:")); err == nil && kk <= len(items) {
+			route, k = 5, kk
+		}
 	}
 	switch route {
 	case 5:
